@@ -37,6 +37,7 @@ struct vp_initlist { char _e; };
 struct vp_stdexc { int kind; };
 struct vp_typeinfo { int id; };
 struct vp_regex { int id; };
+struct vp_memfn { int id; };
 struct vp_typeinfo vp_typeid_obj;
 struct vp_stdexc vp_stdexc_obj;
 
